@@ -533,8 +533,25 @@ def grid_cases(tier, seed):
                            "store": "set_many", "fetch": fetch, "coll": coll, "pieces": [3], "noreply": False}
 
 
+def key_count_cases(tier, seed):
+    """every number of keys in one multi-key fetch from 1 to 520 (thorough: to 2100, and some larger round numbers): a
+    client that cuts a long fetch into several commands has its seams somewhere in there, wherever it puts them"""
+    top = 520 if tier == "quick" else 2100
+    counts = list(range(1, top + 1)) + ([1000, 1024, 2048, 4096] if tier == "quick" else [2500, 4096, 8192, 10000, 16384, 65536 // 4])
+    kinds = ("client", "pooled", "hash", "hash-pooled")
+    for n in counts:
+        fetch = ("get_many", "gets_many")[n % 2]
+        kind = kinds[(n // 2) % 4]
+        coll = ("list", "tuple", "iter", "set", "dictview")[(n // 8) % 5]
+        absent = ["nope-%d" % n] if n % 3 == 0 else []
+        yield {"kind": kind, "cfg": {"key_prefix": (b"", b"n:")[(n // 4) % 2], "allow_unicode_keys": False, "encoding": "ascii"}, "serde": None,
+               "items": [["k%d" % j, ("bytes", b"v%d" % j)] for j in range(n)], "absent": absent, "store": "set_many", "fetch": fetch,
+               "coll": coll, "pieces": None if n % 5 else [4096], "noreply": bool(n % 2)}
+
+
 PARTS = [
     Part("grid", "enum", check, cases=grid_cases),
+    Part("every-number-of-keys", "enum", check, cases=key_count_cases, exhaustive=True, distinct_by_construction=True),
     Part("random", "hyp", check, strategy=lambda tier: case_strategy(tier),
          examples={"quick": 300, "thorough": 10000}, shards={"quick": 6, "thorough": 16}),
 ]
